@@ -114,23 +114,6 @@ def strict(e):
 # ---------------------------------------------------------------------------------------------
 
 
-def f_window_without_arrange_after_arrange_verb(prog, idxs, ctx):
-    steps = prog["steps"]
-    arranged = set()
-    for i in idxs:
-        st = steps[i]
-        if st["verb"] == "arrange":
-            arranged.add(st["out"])
-            continue
-        if st["in"] in arranged and st["verb"] not in ("summarize", "join", "union", "alias"):
-            arranged.add(st["out"])
-        if st["verb"] == "mutate" and st["in"] in arranged:
-            for n in walk(st["kw"]):
-                if n.get("k") == "fn" and n["op"] in ORDER_SENSITIVE and not n.get("arr"):
-                    return True
-    return False
-
-
 def _table_names(prog):
     out = {t["name"] for t in prog["tables"]}
     for st in prog["steps"]:
@@ -165,7 +148,6 @@ def f_null_typed_expression(prog, idxs, ctx):
 FEATURES = {
     "null_typed_expression": f_null_typed_expression,
     "literal_with_pyformat_placeholder": f_literal_with_pyformat_placeholder,
-    "window_without_arrange_after_arrange_verb": f_window_without_arrange_after_arrange_verb,
 }
 
 
